@@ -224,7 +224,19 @@ func (w *Walker) randomPlacement(maxPieces int) string {
 				sb.WriteByte('/')
 			}
 		}
-		fen := sb.String() + " " + side + " " + cr + " " + ep + " " + strconv.Itoa(w.rng.Intn(60)) + " " + strconv.Itoa(1+w.rng.Intn(80))
+		// half-move clock: mostly small; sometimes around the fifty-move limit and beyond it (the rule
+		// must be claimed, the counter keeps running: 8-bit boundaries lie in that range)
+		hmc := w.rng.Intn(60)
+		switch r := w.rng.Intn(100); {
+		case r < 8:
+			hmc = 90 + w.rng.Intn(45)
+		case r < 12:
+			hmc = 120 + w.rng.Intn(200)
+		}
+		if ep != "-" {
+			hmc = 0
+		}
+		fen := sb.String() + " " + side + " " + cr + " " + ep + " " + strconv.Itoa(hmc) + " " + strconv.Itoa(1+w.rng.Intn(80))
 		p, err := position.NewPositionFen(fen)
 		if err != nil || p == nil {
 			continue
